@@ -73,3 +73,11 @@ META["C15"] = dict(
     note="Trusts the wrapping host/stream doubles and the recording Receiver; mocknet instead of real sockets.",
     technique="runtime monitoring with fault injection at the libp2p host/stream boundary (enumerated open-failure patterns, write faults, cancellation on a virtual clock)",
 )
+
+META["C18"] = dict(
+    text=("Held on K recorded histories of concurrent opens (uniqueness + linearizability against a strictly increasing counter), successive manager lifetimes on the real "
+          "clock, and duplicate new requests at sampled points of the original channel's life incl. concurrent identical requests."),
+    design_ref="DESIGN.md §2 C18",
+    note="porcupine v1.3.0 on bounded sub-histories plus a direct O(n^2) check of the forced order; the lifetimes clause depends on the real clock advancing.",
+    technique="runtime monitoring: recorded call/return history checked for linearizability (porcupine + direct order check); write-log/byte diff for duplicates",
+)
